@@ -71,7 +71,8 @@ CARRIERS = ["is_table", "sequence", "last_token", "columns_def", "after_columns"
 
 
 def bounds(tier):
-    return {"history_depth": 3, "ops": len(OPS) if tier == "thorough" else "12 for depth<=2, 6 for depth 3",
+    return {"history_depth": "3 over 12 run() variants, 4 over 6" if tier == "thorough" else 3, "ops": len(OPS) if tier == "thorough" else "12 for depth<=2, 6 for depth 3",
+            "cross_object_chains": "all ordered pairs and triples of inputs" if tier == "thorough" else "all ordered pairs of inputs",
             "inputs": len(INPUTS), "hash_seeds": 5}
 
 
@@ -80,6 +81,7 @@ def gen_cases(tier):
     names = list(INPUTS)
     if tier == "thorough":
         hists = [list(h) for h in itertools.product(range(len(OPS)), repeat=3)]
+        hists += [list(h) for h in itertools.product(range(0, len(OPS), 2), repeat=4)]  # depth 4 over every second variant
     else:
         # every prefix of a complete history is checked on the way, so only maximal histories are listed
         hists = [list(h) for h in itertools.product(range(len(OPS)), repeat=2)]
@@ -95,6 +97,9 @@ def gen_cases(tier):
     for a in names:
         for b in names:
             cases.append({"kind": "pair", "first": a, "second": b})
+            if tier == "thorough":
+                for c in names:  # two earlier objects
+                    cases.append({"kind": "pair", "first": a, "mid": b, "second": c})
     seeds = sorted({0, 1, 2, 3, int(os.environ.get("VERIF_SEED") or 0) % 4294967295})
     for nme in names:
         for sd in seeds:
@@ -133,6 +138,11 @@ def _pair_case(case):
     except Exception:  # noqa
         first = None
     snap = copy.deepcopy(first)
+    if case.get("mid"):
+        try:
+            DDLParser(INPUTS[case["mid"]][0], **INPUTS[case["mid"]][1]).run(output_mode="hql", group_by_type=True)
+        except Exception:  # noqa
+            pass
     for n, oi in enumerate(PAIR_OPS):
         try:
             r = ["ok", DDLParser(d2, **c2).run(**OPS[oi])]
